@@ -195,7 +195,7 @@ def semantics(case, res, tags):
                 vios.append(dict(sig="value:time:underdetermined", tags=tags + ["coupling_missing"], detail="the grid's equality rows admit node movements %s that leave the declared partition (dT=%g dt0=%g)" % (np.round(dtc, 4), dT, dt0)))
                 break
     # (3) bounds on interval lengths: enforced exactly (boundary lattice), wherever lengths are decisions
-    if ("min" in opts or "max" in opts) and nt:
+    if ("min" in opts or "max" in opts or kind == "free") and nt:       # (FreeGrid without options: lengths >= 0)
         mn, mx = opts.get("min", 0.0), opts.get("max", np.inf)
         scen = []
         if kind == "free":
